@@ -182,6 +182,14 @@ def replay(path):
     with open(path) as fh:
         data = json.load(fh)
     rep = data.get("replay", data)
+    if rep.get("kind") == "pwm-two-instances":
+        from vlib.common import Check
+
+        c = Check("C03", "quick", 1)
+        two_instances_monitor(c)
+        for v in c.violations:
+            print(json.dumps({"key": v["key"], "what": v["what"]}))
+        return 1 if c.violations else 0
     ops = rep["ops"]
     tr = pc.run_real(ops)
     v, worst = pc.monitor_cap(tr, ops[0][3])
